@@ -120,6 +120,7 @@ type mq struct {
 	conn       map[string]int // connected notifications outstanding per peer
 	script     []string       // connect/disconnect events: "conn:P", "disc:P"
 	sNext      int
+	scriptAt   []int // step at which each connection event was fired
 	descr      string
 	viol       *Violation
 	unreserved *mqCall // first operation built although its reservation had not been granted
@@ -320,6 +321,7 @@ func (s *mq) events(w *World) func() []*Event {
 					return
 				}
 				s.sNext++
+				s.scriptAt = append(s.scriptAt, w.Step)
 				parts := strings.SplitN(ev, ":", 2)
 				p := s.peerID(parts[1])
 				w.Effect("peermanager %s", ev)
@@ -610,10 +612,17 @@ func (s *mq) finalC17(w *World) *Violation {
 		}
 		_ = lastIsDisc
 		// after the notifications balance out (or go negative) and nothing more is queued, the queue must be gone;
-		// a queue created lazily by a send after the last disconnect legitimately lives on
+		// a queue created lazily by a send after the last disconnect legitimately lives on: a send counts as
+		// late unless it had returned before the step at which the last disconnect was fired
+		lastDisc := -1
+		for i, e := range s.script {
+			if e == "disc:"+p.Name && i < len(s.scriptAt) {
+				lastDisc = s.scriptAt[i]
+			}
+		}
 		lateSend := false
 		for _, c := range s.calls {
-			if c.peer == p.Name && c.built {
+			if c.peer == p.Name && c.fired && (!c.ret || c.retAt >= lastDisc) {
 				lateSend = true
 			}
 		}
